@@ -275,6 +275,25 @@ async def execute(gen, ops, w: SockWorld, run: Run, counters=None):
                 await do_send(msg, rec, pol)
             else:
                 tasks.append(loop.create_task(do_send(msg, rec, pol)))
+        elif o == "send_again":
+            # the application submits the same command once more (an exact copy of the last
+            # message of that kind - a user pressing the button twice): a message of its own
+            _, kind, polname, mode = op[:4]
+            pol = POLICIES[polname] if isinstance(polname, str) else tuple(polname)
+            prev = [r for r in run.sends if r["kind"] == kind and r.get("data") is not None]
+            if not prev:
+                continue
+            n = prev[-1]["serial"][1]
+            msg, typ, data = make_message(gen, kind, n)
+            rec = {"serial": (kind, n, len(run.sends)), "kind": kind, "policy": pol, "typ": typ,
+                   "data": data, "outcome": "pending", "ret_seq": None, "mode": mode,
+                   "copy_of": prev[-1]["serial"]}
+            run.sends.append(rec)
+            log.add("SCRIPT.send_again", what=kind)
+            if mode in ("inline", "hdr", "hdr_same"):
+                await do_send(msg, rec, pol)
+            else:
+                tasks.append(loop.create_task(do_send(msg, rec, pol)))
         elif o == "send_bad":
             msg = bad_message(gen, op[1])
             rec = {"serial": ("bad", len(run.sends)), "kind": "bad:" + op[1],
